@@ -9,8 +9,10 @@ use vstd::std_specs::cmp::{OrdSpecImpl, PartialOrdSpecImpl, PartialEqSpecImpl};
 use core::ops::{Add, Sub, Mul, Div, Shr, Neg};
 use core::cmp::Ordering;
 
-// dashu_base::Sign: the enum and its three operators are mirrored from base/src/sign.rs (bodies verified here
-// against the spec functions; trusted: that the mirror is faithful).
+// dashu_base::Sign: the enum is mirrored from base/src/sign.rs (trusted to match).  The bodies of its operators
+// (`Mul<Sign> for Sign::mul`, `Neg::neg`, `Ord::cmp`) are the REAL functions, extracted by the unit template as
+// inherent methods `Sign::{mul, neg, cmp}` (//@@ FN .../base_sign_*.rs inside `impl Sign {}`); the trait impls
+// below only forward to them.
 #[derive(Clone, Copy, PartialEq, Eq)]
 pub enum Sign { Positive, Negative }
 pub use Sign::*;
@@ -40,13 +42,7 @@ impl PartialOrd for Sign {
     fn partial_cmp(&self, other: &Self) -> Option<Ordering> { Some(self.cmp(other)) }
 }
 impl Ord for Sign {
-    fn cmp(&self, other: &Self) -> Ordering {
-        match (self, other) {
-            (Positive, Negative) => Ordering::Greater,
-            (Negative, Positive) => Ordering::Less,
-            _ => Ordering::Equal,
-        }
-    }
+    fn cmp(&self, other: &Self) -> Ordering { Sign::cmp(self, other) }
 }
 impl NegSpecImpl for Sign {
     open spec fn obeys_neg_spec() -> bool { true }
@@ -54,7 +50,7 @@ impl NegSpecImpl for Sign {
     open spec fn neg_spec(self) -> Sign { sign_neg(self) }
 }
 impl Neg for Sign { type Output = Sign;
-    fn neg(self) -> Sign { match self { Positive => Negative, Negative => Positive } }
+    fn neg(self) -> Sign { Sign::neg(self) }
 }
 impl MulSpecImpl<Sign> for Sign {
     open spec fn obeys_mul_spec() -> bool { true }
@@ -62,14 +58,7 @@ impl MulSpecImpl<Sign> for Sign {
     open spec fn mul_spec(self, rhs: Sign) -> Sign { sign_mul(self, rhs) }
 }
 impl Mul<Sign> for Sign { type Output = Sign;
-    fn mul(self, rhs: Sign) -> Sign {
-        match (self, rhs) {
-            (Positive, Positive) => Positive,
-            (Positive, Negative) => Negative,
-            (Negative, Positive) => Negative,
-            (Negative, Negative) => Positive,
-        }
-    }
+    fn mul(self, rhs: Sign) -> Sign { Sign::mul(self, rhs) }
 }
 
 // ---- the two big-integer types: abstract, value = v() ------------------------------------------------------
@@ -136,6 +125,12 @@ impl IBig {
     // TRUSTED (integer/src/sign.rs): zero is Positive
     #[verifier::external_body]
     pub fn sign(&self) -> (r: Sign) ensures r == (if self.v() < 0 { Sign::Negative } else { Sign::Positive }) { unimplemented!() }
+    // TRUSTED (integer/src/ibig.rs): sign-magnitude split and join (a zero magnitude is stored as +0)
+    #[verifier::external_body]
+    pub fn into_parts(self) -> (r: (Sign, UBig))
+        ensures r.1.v() == rabs(self.v()), r.0 == (if self.v() < 0 { Sign::Negative } else { Sign::Positive }) { unimplemented!() }
+    #[verifier::external_body]
+    pub fn from_parts(sign: Sign, magnitude: UBig) -> (r: IBig) ensures r.v() == sgn(sign) * magnitude.v() { unimplemented!() }
     #[verifier::external_body]
     pub fn unsigned_abs(self) -> (r: UBig) ensures r.v() == rabs(self.v()) { unimplemented!() }
     // TRUSTED (integer/src/bits.rs): trailing zeros of the magnitude
